@@ -147,23 +147,41 @@ def run(report, p):
                 r3.check(ok_date, f, call, "recorded folder modification date is not that of the recorded folder", witness="; ".join(show(o)[:160] for o in date_o))
 
     # ------------------------------------------------------------------ R16.4
-    r4 = report.rule("R16.4", "the time stamp in manifest file names is taken from an aware UTC 'now' and formatted with a pattern ending in 'Z'", 1)
-    namers = [f for f in p.funcs.values() if f.module.name.endswith("history") and any(isinstance(n, ast.JoinedStr) for n in walk_no_nested(f.node)) and any(t.endswith("datetime_now_filename_string") for _, tg in p.calls[f.qual] for t in tg)]
-    fn = p.funcs.get("ascmhl.utils.datetime_now_filename_string")
-    if fn is None or not namers:
+    r4 = report.rule("R16.4", "the time stamp in manifest file names is taken from an aware UTC 'now' (or a time converted to UTC) and formatted with a pattern ending in 'Z'", 1)
+    namers = []
+    for f in p.funcs.values():
+        if not f.module.name.endswith("history"):
+            continue
+        for n in walk_no_nested(f.node):
+            if isinstance(n, ast.JoinedStr) and any(isinstance(v, ast.FormattedValue) and norm(v.value) == "ascmhl_file_extension" for v in n.values):
+                namers.append((f, n))
+    if not namers:
         raise AnalysisError("file-name date helper / its users not found")
-    r4.instance(fn, fn.node, "file name date helper")
-    rets = [n for n in walk_no_nested(fn.node) if isinstance(n, ast.Return)]
-    ok = False
-    if len(rets) == 1:
-        for o in pr.origins(rets[0].value, fn):
-            c = o if is_call(o, "strftime") else None
-            if c is not None:
-                consts = [s[1] for s in subterms(c) if s[0] == "const" and isinstance(s[1], str)]
-                nows = [s for s in subterms(c) if is_call(s, "datetime.now")]
-                utc = all(any(("timezone.utc" in show(a)) or ("UTC" in show(a)) for a in list(s[2]) + list(s[3].values())) for s in nows)
-                ok = bool(nows) and utc and any(k.endswith("Z") and "%H" in k for k in consts)
-    r4.check(ok, fn, fn.node, "manifest file names do not carry an aware UTC time formatted with a trailing 'Z'", construct="filename date")
+    for f, js in namers:
+        stamped = False
+        for v in js.values:
+            if not isinstance(v, ast.FormattedValue) or norm(v.value) == "ascmhl_file_extension":
+                continue
+            for o in pr.origins(v.value, f):
+                full = pr.full(o, depth=4, inline_depth=4)
+                for c in [t for t in subterms(full) if is_call(t, "strftime")]:
+                    consts = [s2[1] for s2 in subterms(c) if s2[0] == "const" and isinstance(s2[1], str) and "%H" in s2[1]]
+                    if not consts:
+                        continue
+                    stamped = True
+                    r4.instance(f, v.value, f"{f.name}: time stamp {show(c)[:70]}")
+                    r4.check(all(k.endswith("Z") for k in consts), f, v.value, f"the time stamp pattern {consts} of manifest file names does not end in 'Z'", construct="filename date pattern")
+                    # every clock value that is formatted is an aware UTC time
+                    srcs = [t for t in subterms(c) if t[0] == "call" and t[1].split(".")[-1] in ("now", "utcnow", "today", "fromisoformat", "fromtimestamp", "strptime", "parse", "localtime", "gmtime")]
+                    srcs = [t for t in srcs if not any(o2 is not t and any(x is t for x in subterms(o2)) for o2 in srcs)]  # outermost clock values only
+                    for src in srcs:
+                        kind = src[1].split(".")[-1]
+                        args = list(src[2]) + list(src[3].values())
+                        is_utc_now = kind in ("now", "fromtimestamp") and any(("timezone.utc" in show(a)) or ("UTC" in show(a)) for a in args)
+                        converted = any(is_call(w, "astimezone") and any(("timezone.utc" in show(a)) or ("UTC" in show(a)) for a in list(w[2]) + list(w[3].values())) and any(x is src for x in subterms(w)) for w in subterms(c))
+                        r4.check(is_utc_now or converted, f, v.value, f"manifest file names carry `{show(src)[:70]}` formatted with a trailing 'Z' without a conversion to UTC: on a host that is not on UTC the name states local time as UTC", construct=f"filename time from {kind} without UTC conversion")
+        if not stamped:
+            raise AnalysisError(f"{f.qual}: the time stamp that goes into the manifest file name could not be traced to a strftime call")
 
     # ------------------------------------------------------------------ R16.7
     r7 = report.rule(
